@@ -69,6 +69,24 @@ def staged_doc(prog, max_blocks=60, methods_too=False):
     from .sroa import scalarise
     prog.callgraph()
     base_fns = dict(prog.fns)
+    disp = None
+    try:
+        disp = enum_dispatch_to_dyn(base_fns, prog.adts)
+    except Exception:
+        disp = None
+        base_fns = dict(prog.fns)
+    if disp:
+        import json as _json
+        doc0 = dict(prog.doc)
+        doc0["fns"] = base_fns
+        # the dispatcher's type is the boxed trait object in every type string
+        text = _json.dumps(doc0, ensure_ascii=False)
+        text = re.sub(re.escape(_json.dumps(disp)[1:-1]) + r"(?![A-Za-z0-9_:])", "std::boxed::Box<(dyn context::Method + 'static)>", text)
+        doc0 = _json.loads(text)
+        doc0["adts"] = [a_ for a_ in doc0["adts"] if a_["path"] != "std::boxed::Box<(dyn context::Method + 'static)>"]
+        prog = Program(doc0)
+        prog.callgraph()
+        base_fns = dict(prog.fns)
     try:
         rebound = rebind_field_params(prog, base_fns)
     except Exception:
@@ -172,6 +190,98 @@ def staged_doc(prog, max_blocks=60, methods_too=False):
         pass
     doc["fns"] = fns
     return doc, {k: sorted(hosts_of(k))[0] for k in sorted(gone)}
+
+
+def enum_dispatch_to_dyn(doc_fns, adts, trait="context::Method"):
+    """A private enum whose variants each wrap one implementor of the method trait, and whose own impl of the trait forwards every method to the
+    payload (`match self { A(m) => m.f(args), B(m) => m.f(args) }`), is the trait object spelled as a closed set: a call of one of its methods is
+    the virtual call.  Rewrites calls of the dispatcher's trait methods into virtual calls of the trait and drops the dispatcher's impl.
+    Returns (dispatcher type path or None)."""
+    impls = defaultdict(dict)
+    for k, f in doc_fns.items():
+        imp = f.get("impl") or {}
+        if imp.get("trait") == trait and f.get("kind") != "Closure":
+            impls[imp.get("self")][f.get("name")] = k
+    disp = None
+    for ty, ms in impls.items():
+        a = adts.get(ty)
+        if not a or a.get("kind") != "enum" or not a["variants"]:
+            continue
+        payloads = [v["fields"][0]["ty"] for v in a["variants"] if len(v["fields"]) == 1]
+        if len(payloads) != len(a["variants"]) or not all(p_ in impls and p_ != ty for p_ in payloads):
+            continue
+        ok = True
+        for name, k in ms.items():
+            m = doc_fns[k]["mir"]
+            callees = set()
+            for b in m["blocks"]:
+                t = b["term"]
+                if b.get("cleanup"):
+                    continue
+                if t["k"] == "call" and "callee" in t:
+                    callees.add(t["callee"].get("resolved") or t["callee"].get("path"))
+                elif t["k"] not in ("switch", "goto", "return", "unreachable", "drop"):
+                    ok = False
+            if callees != {impls[p_].get(name) for p_ in payloads}:
+                ok = False
+            # every forwarding call hands on the method's own parameters, in order, and its result is the method's result
+            alldefs = {}
+            for b in m["blocks"]:
+                for st in b["stmts"]:
+                    if st["k"] == "assign" and not st["place"]["p"]:
+                        alldefs.setdefault(st["place"]["l"], []).append(st["rv"])
+
+            def origin(l, depth=0):
+                if 1 <= l <= m["arg_count"]:
+                    return l
+                ds = alldefs.get(l, [])
+                if len(ds) != 1 or depth > 4:
+                    return None
+                rv = ds[0]
+                src = rv.get("place") if rv["k"] == "ref" else (rv.get("op", {}).get("place") if rv["k"] == "use" else None)
+                if not src or [x for x in src["p"] if x != "*"]:
+                    return None
+                return origin(src["l"], depth + 1)
+            for b in m["blocks"]:
+                t = b["term"]
+                if b.get("cleanup") or t["k"] != "call" or "callee" not in t:
+                    continue
+                if len(t["args"]) != m["arg_count"]:
+                    ok = False
+                    break
+                for ai, a_ in enumerate(t["args"][1:], start=2):
+                    if a_.get("k") not in ("move", "copy") or a_["place"]["p"] or origin(a_["place"]["l"]) != ai:
+                        ok = False
+                if t["dest"]["p"] or t["dest"]["l"] != 0:
+                    ok = False
+        if ok:
+            disp = ty
+            break
+    if disp is None:
+        return None
+    names = {k: n for n, k in impls[disp].items()}
+    for k, f in list(doc_fns.items()):
+        if k in names:
+            continue
+        m = f["mir"]
+        changed = False
+        nb = []
+        for b in m["blocks"]:
+            t = b["term"]
+            if t["k"] == "call" and "callee" in t and (t["callee"].get("resolved") or t["callee"].get("path")) in names:
+                n = names[t["callee"].get("resolved") or t["callee"].get("path")]
+                t2 = dict(t)
+                t2["callee"] = {"path": "%s::%s" % (trait, n), "full": "<dyn %s as %s>::%s" % (trait, trait, n), "local": True, "name": n,
+                                "substs": ["dyn " + trait], "trait": trait, "self_ty": "dyn " + trait, "rkind": "virtual",
+                                "resolved": "%s::%s" % (trait, n), "rlocal": True}
+                b = dict(b, term=t2)
+                changed = True
+            nb.append(b)
+        if changed:
+            doc_fns[k] = dict(f, mir=dict(m, blocks=nb))
+    for k in names:
+        doc_fns.pop(k, None)
+    return disp
 
 
 def rebind_field_params(prog, fns):
